@@ -6,6 +6,7 @@ def step (line : String) : String :=
   let toks := (line.trimAscii.toString.splitOn " ").filter (· ≠ "")
   let r := match toks with
     | "sigma" :: rest => Sigma.run rest
+    | "implicit" :: rest => Implicit.run rest
     | _ => none
   r.getD "bad-op"
 
